@@ -16,6 +16,14 @@ func structOf(t types.Type) *types.Struct {
 	}
 	return t.Underlying().(*types.Struct)
 }
+func hasField(st *types.Struct, name string) bool {
+	for i := 0; i < st.NumFields(); i++ {
+		if st.Field(i).Name() == name {
+			return true
+		}
+	}
+	return false
+}
 func fieldIdx(st *types.Struct, name string) int {
 	for i := 0; i < st.NumFields(); i++ {
 		if st.Field(i).Name() == name {
@@ -259,6 +267,10 @@ func (e *Engine) callField(sv StructV, t types.Type, name string, args ...any) (
 func (e *Engine) serverHandshake(c *TLSConnV) any {
 	fail := func(msg string) any { return e.mkErr("tls: " + msg) }
 	advSt := structOf(c.advT)
+	// a peer that does not speak TLS at all, or drops the connection before its ClientHello is complete
+	if hasField(advSt, "NotTLS") && e.branch(c.adv[fieldIdx(advSt, "NotTLS")]) {
+		return fail("first record does not look like a TLS handshake")
+	}
 	protos := c.adv[fieldIdx(advSt, "Protos")].(SliceV)
 	hello := zero(tHello).(StructV)
 	setF(hello, tHello, "SupportedProtos", protos)
@@ -304,6 +316,11 @@ func (e *Engine) serverHandshake(c *TLSConnV) any {
 				return fail("no certificates configured")
 			}
 		}
+	}
+	// a peer that aborts once it has seen the server's flight (fatal alert / reset): the error the server's
+	// handshake returns is the harness-declared AbortErr (shaped like *net.OpError: Temporary() == false)
+	if hasField(advSt, "Abort") && e.branch(c.adv[fieldIdx(advSt, "Abort")]) {
+		return c.adv[fieldIdx(advSt, "AbortErr")]
 	}
 	// client certificate
 	var peerCerts []any
